@@ -297,8 +297,8 @@ class StmtParser:
             self.eat()
             return None
         if (k, v) == ("id", "using"):
-            self.until(";")
-            return None
+            toks, _ = self.until(";")
+            return ("using", "".join(t[1] + (" " if t[0] == "id" else "") for t in toks).strip())
         if (k, v) == ("id", "if"):
             self.eat()
             c = self.group("(", ")")
@@ -774,6 +774,7 @@ class Expr:
 
 class Hooks:
     """client-specific names; override in the translators"""
+    known_usings = ()           # using-declarations (as StmtParser renders them) a unit may contain
 
     def resolve(self, ex, name, call, has_rest):
         return None
@@ -888,6 +889,13 @@ class Exec:
             return self.block(s[1], 0, env, leave, ret)
         if tag == "block_flat":
             return self.block(s[1], 0, env, rest, ret)
+        if tag == "using":
+            # a using-declaration changes what names mean: only the ones the client knows (Hooks.known_usings) are accepted
+            if s[1] not in self.u.h.known_usings:
+                raise OutOfGrammar("%s: using-declaration %r" % (self.what, s[1]))
+            return rest(env)
+        if tag == "while_true" and i + 1 < len(stmts):
+            raise OutOfGrammar("%s: statement after `while (true)` (unreachable)" % self.what)
         if tag in ("return", "throw") and i + 1 < len(stmts):
             raise OutOfGrammar("%s: statement after %s in the same block (unreachable)" % (self.what, tag))
         if tag == "return":
